@@ -10,6 +10,9 @@ use std::collections::HashSet;
 pub mod selftest;
 pub mod c01;
 pub mod c02;
+pub mod c13;
+pub mod c15;
+pub mod c16;
 pub mod e1;
 
 pub fn variant() -> &'static str {
@@ -227,6 +230,9 @@ pub fn run(id: &str, tier: Tier, rest: &[String]) -> i32 {
     match id {
         "C01" => c01::run(tier, part),
         "C02" => c02::run(tier, part),
+        "C13" => c13::run(tier, part),
+        "C15" => c15::run(tier, part),
+        "C16" => c16::run(tier, part),
         _ => {
             eprintln!("unknown property {}", id);
             2
@@ -249,6 +255,9 @@ pub fn replay(file: &str) -> i32 {
     match prop {
         "C01" => c01::replay(&doc["replay"]),
         "C02" => c02::replay(tier, &doc["replay"]),
+        "C13" => c13::replay(&doc["replay"]),
+        "C15" => c15::replay(&doc["replay"]),
+        "C16" => c16::replay(&doc["replay"]),
         _ => {
             eprintln!("no replay handler for {}", prop);
             2
